@@ -458,6 +458,8 @@ class C18(Check):
         init = sg.gen_initial_state(rng, dflt, version)
         nops = rng.randint(5, 14) if rng.random() < 0.7 else rng.randint(
             15, 40)
+        if tier == "thorough" and rng.random() < 0.1:
+            nops = rng.randint(41, 90)
         # generation tracks just enough state to produce valid operations
         cfg_files = {}
         ops = []
@@ -582,7 +584,7 @@ class C18(Check):
                 g = [k, rng.choice(["abc", "2", "0.5", "xz"])]
             else:
                 g = sg.gen_group(rng, k, v if v is not None else self.dflt[k],
-                                 allow_negative=False)
+                                 allow_negative=rng.random() < 0.25)
             # values never spell a key of the target
             g = [g[0]] + [t if t not in tkeys else t + "_" for t in g[1:]]
             tokens += g
